@@ -1179,7 +1179,17 @@ impl Stream {
         // returns lines_read, position.
         let result = match self {
             Stream::Byte(byte_stream_layout) => {
-                Some(byte_stream_layout.stream.get_ref().0.position())
+                // the reader has fetched more than has been consumed: subtract its
+                // pending buffer length, as for files
+                let pending = byte_stream_layout.stream.rem_buf_len() as u64;
+                Some(
+                    byte_stream_layout
+                        .stream
+                        .get_ref()
+                        .0
+                        .position()
+                        .saturating_sub(pending),
+                )
             }
             Stream::StaticString(string_stream_layout) => {
                 Some(string_stream_layout.stream.stream.position())
@@ -1286,7 +1296,18 @@ impl Stream {
                 } = &mut ***stream_layout;
 
                 let cursor_len = stream.get_ref().0.get_ref().len() as u64;
-                cursor_position(past_end_of_stream, &stream.get_ref().0, cursor_len)
+                // bytes waiting in the reader's buffer have not been consumed yet
+                let pending = stream.rem_buf_len() as u64;
+                let consumed = stream.get_ref().0.position().saturating_sub(pending);
+
+                match consumed.cmp(&cursor_len) {
+                    Ordering::Equal => AtEndOfStream::At,
+                    Ordering::Greater => {
+                        *past_end_of_stream = true;
+                        AtEndOfStream::Past
+                    }
+                    Ordering::Less => AtEndOfStream::Not,
+                }
             }
             Stream::StaticString(stream_layout) => {
                 let StreamLayout {
@@ -1645,6 +1666,7 @@ impl Stream {
 
         match self {
             Stream::Byte(cursor) => {
+                cursor.stream.reset_buffer();
                 cursor.stream.get_mut().0.set_position(0);
                 true
             }
